@@ -79,6 +79,49 @@ def class_level_params_access(node):
     return out
 
 
+def value_reporters_agree(ctx, rule):
+    """get_value_generator / inspect_value: the Parameter looked up in the instance namespace only chooses the route (shared by R13.g and R19.v)."""
+    # ---------------------------------------------------------------- R13.g
+    for fname in ("get_value_generator", "inspect_value"):
+        g = ctx.repo.func("param.parameterized.Parameters." + fname)
+        tainted = {}
+        for st in ast.walk(g.node):
+            if isinstance(st, ast.Assign) and len(st.targets) == 1 and isinstance(st.targets[0], ast.Name):
+                src = norm(st.value)
+                inst_lookup = False
+                for c in ast.walk(st.value):
+                    if isinstance(c, ast.Call) and isinstance(c.func, ast.Attribute) and c.func.attr == "objects":
+                        a0 = c.args[0] if c.args else next((k.value for k in c.keywords if k.arg == "instance"), None)
+                        base = norm(c.func.value)
+                        class_level = (isinstance(a0, ast.Constant) and a0.value is False) and True
+                        if not class_level and not base.startswith(("self_.cls.", "type(")):
+                            inst_lookup = True
+                    if isinstance(c, ast.Subscript) and norm(c.value) in ("self_", "cls_or_slf.param", "self_.self_or_cls.param", "self_.self.param"):
+                        inst_lookup = True
+                if inst_lookup:
+                    tainted[st.targets[0].id] = src
+        ctx.require(tainted, "Parameters.%s no longer looks the Parameter up in the (instance) namespace" % fname)
+        bad = []
+        gcfg = ctx.facts.cfg(g)
+        for n in gcfg.live_nodes():
+            if n.ast is None or n.kind not in ("stmt", "test"):
+                continue
+            for a in ast.walk(n.ast if n.kind == "test" or not isinstance(n.ast, (ast.If, ast.For, ast.While, ast.Try, ast.With)) else ast.Pass()):
+                if isinstance(a, ast.Attribute) and isinstance(a.value, ast.Name) and a.value.id in tainted and a.attr in ("default", "_inspect", "__get__") and isinstance(a.ctx, ast.Load):
+                    # on the branch where the subject is a class the lookup is the class-level one
+                    on_class = any(t is True and norm(e).replace(" ", "") in ("isinstance(cls_or_slf,type)", "isinstance(self_.self_or_cls,type)") for e, t in gcfg.conditions(n))
+                    if not on_class:
+                        bad.append(a)
+        if bad:
+            a = bad[0]
+            ctx.fail(rule, g, a, "`%s.%s` is read off a Parameter looked up with `%s`: on an instance this may be the per-instance copy, whose default is the one it was created with, while "
+                                    "attribute access goes through the class-level Parameter -- after a class-level set, values()/repr/serialization report a value getattr does not" % (
+                                        a.value.id, a.attr, tainted[a.value.id][:60]), key="%s::stale-instance-copy::%s" % (g.qualname, a.attr),
+                     input="p = P(); p.param.n; P.n = 5  ->  p.n == 5 but p.param.values()['n'] == <old default>")
+        else:
+            ctx.ok(rule, g, g.node, "the Parameter looked up in the instance namespace (%s) is only used to choose the route; the value comes from getattr, the value store or the class-level Parameter" % ", ".join(sorted(tainted)))
+
+
 def run(ctx):
     ctx.rule("R13.a", "every installation of a Parameter into a class namespace (type.__setattr__) is followed, on every path "
                       "incl. exceptional ones and before anything that may raise, by an invalidation of the `.param` cache "
@@ -209,45 +252,7 @@ def run(ctx):
     from checks.shared import memo_not_mutated_in_place
     memo_not_mutated_in_place(ctx, "R13.f")
 
-    # ---------------------------------------------------------------- R13.g
-    for fname in ("get_value_generator", "inspect_value"):
-        g = ctx.repo.func("param.parameterized.Parameters." + fname)
-        tainted = {}
-        for st in ast.walk(g.node):
-            if isinstance(st, ast.Assign) and len(st.targets) == 1 and isinstance(st.targets[0], ast.Name):
-                src = norm(st.value)
-                inst_lookup = False
-                for c in ast.walk(st.value):
-                    if isinstance(c, ast.Call) and isinstance(c.func, ast.Attribute) and c.func.attr == "objects":
-                        a0 = c.args[0] if c.args else next((k.value for k in c.keywords if k.arg == "instance"), None)
-                        base = norm(c.func.value)
-                        class_level = (isinstance(a0, ast.Constant) and a0.value is False) and True
-                        if not class_level and not base.startswith(("self_.cls.", "type(")):
-                            inst_lookup = True
-                    if isinstance(c, ast.Subscript) and norm(c.value) in ("self_", "cls_or_slf.param", "self_.self_or_cls.param", "self_.self.param"):
-                        inst_lookup = True
-                if inst_lookup:
-                    tainted[st.targets[0].id] = src
-        ctx.require(tainted, "Parameters.%s no longer looks the Parameter up in the (instance) namespace" % fname)
-        bad = []
-        gcfg = ctx.facts.cfg(g)
-        for n in gcfg.live_nodes():
-            if n.ast is None or n.kind not in ("stmt", "test"):
-                continue
-            for a in ast.walk(n.ast if n.kind == "test" or not isinstance(n.ast, (ast.If, ast.For, ast.While, ast.Try, ast.With)) else ast.Pass()):
-                if isinstance(a, ast.Attribute) and isinstance(a.value, ast.Name) and a.value.id in tainted and a.attr in ("default", "_inspect", "__get__") and isinstance(a.ctx, ast.Load):
-                    # on the branch where the subject is a class the lookup is the class-level one
-                    on_class = any(t is True and norm(e).replace(" ", "") in ("isinstance(cls_or_slf,type)", "isinstance(self_.self_or_cls,type)") for e, t in gcfg.conditions(n))
-                    if not on_class:
-                        bad.append(a)
-        if bad:
-            a = bad[0]
-            ctx.fail("R13.g", g, a, "`%s.%s` is read off a Parameter looked up with `%s`: on an instance this may be the per-instance copy, whose default is the one it was created with, while "
-                                    "attribute access goes through the class-level Parameter -- after a class-level set, values()/repr/serialization report a value getattr does not" % (
-                                        a.value.id, a.attr, tainted[a.value.id][:60]), key="%s::stale-instance-copy::%s" % (g.qualname, a.attr),
-                     input="p = P(); p.param.n; P.n = 5  ->  p.n == 5 but p.param.values()['n'] == <old default>")
-        else:
-            ctx.ok("R13.g", g, g.node, "the Parameter looked up in the instance namespace (%s) is only used to choose the route; the value comes from getattr, the value store or the class-level Parameter" % ", ".join(sorted(tainted)))
+    value_reporters_agree(ctx, "R13.g")
 
     # R13.i
     PARAMS = "param.parameterized.Parameters"
